@@ -96,18 +96,24 @@ def run(chk):
     tokfam.emit_replay(chk, yv, "c10tok", tjobs, 6, False, False, lambda key: ":panic" in key or ":rejected" in key)
     # ... and on long random token streams (ties, plateaus, signed zeros, every length class): a caught panic is logged as the
     # sentinel [-999] with "panic": true
-    tf = os.path.join(wd, "tok_long.ndjson")
-    run_harness(yv, ["tok-record", "sel", chk.seed * 100 + 9, 140 if quick else 560, 1500, tf], timeout=3000)
-    cur = None
     tok_steps = 0
-    for l in open(tf):
-        if '"new"' in l:
-            cur = json.loads(l)
-        elif '"panic":true' in l:
-            chk.finding("%s:next:panic" % cur["subject"], {"stage": "A:token-streams", "params": cur["params"], "trace": tf})
-            break
-        else:
-            tok_steps += 1
+    for ti, (zeros, progs, steps) in enumerate([(False, 140 if quick else 560, 1500), (True, 630 if quick else 2520, 400)]):
+        tf = os.path.join(wd, "tok_long_%d.ndjson" % ti)
+        if zeros:
+            os.environ["YV_TOK_ZEROS"] = "1"      # tiny alphabets of signed zeros and ties, windows of 1..29
+        try:
+            run_harness(yv, ["tok-record", "sel", chk.seed * 100 + 9 + ti, progs, steps, tf], timeout=3000)
+        finally:
+            os.environ.pop("YV_TOK_ZEROS", None)
+        cur = None
+        for l in open(tf):
+            if '"new"' in l:
+                cur = json.loads(l)
+            elif '"panic":true' in l:
+                chk.finding("%s:next:panic" % cur["subject"], {"stage": "A:token-streams", "params": cur["params"], "trace": tf})
+                break
+            else:
+                tok_steps += 1
     chk.stage("A:token-streams", steps=tok_steps)
     # accepted instances on LONG streams (trends with ripple: hundreds of local peaks on one side of zero; steady rallies of
     # > PeriodType::MAX bars): internal counters of PeriodType width must not overflow
